@@ -22,7 +22,7 @@ from vlib import Ctx, log
 
 ID = "C10"
 LEVEL = "proof"
-MODULES = ["SqlframeModel.Props.C10"]
+MODULES = ["SqlframeModel.Codec.C09", "SqlframeModel.Codec.C10", "SqlframeModel.Props.C10"]
 GEN = ["Names"]
 SOURCES = [
     "SqlframeModel/Props/C10.lean",
@@ -142,8 +142,8 @@ def variant(rng: random.Random, n: str) -> str:
     return n
 
 
-STEP_KINDS = ["select", "withColumn", "withColumnRenamed", "where", "orderBy", "limit", "distinct", "drop", "fillna", "dropDuplicates", "toDF", "groupAgg", "join"]
-IN_SCOPE_KINDS = ["select", "withColumn", "withColumnRenamed", "where", "orderBy", "limit", "distinct"]
+STEP_KINDS = ["select", "withColumn", "withColumnRenamed", "where", "orderBy", "limit", "distinct", "drop", "fillna", "dropDuplicates", "toDF", "groupAgg", "join", "unionByName", "unionByNameMissing"]
+IN_SCOPE_KINDS = ["select", "withColumn", "withColumnRenamed", "where", "orderBy", "limit", "distinct", "unionByName"]
 
 
 def spec_step(sp: t.List[str], s: dict) -> t.List[str]:
@@ -163,6 +163,9 @@ def spec_step(sp: t.List[str], s: dict) -> t.List[str]:
         return list(s["ns"])
     if k == "groupAgg":
         return list(s["keys"]) + [a["alias"] for a in s["aggs"]]
+    if k == "unionByName":
+        lows = {low(x) for x in sp}
+        return sp + ([x for x in s["right"] if low(x) not in lows] if s["allow"] else [])
     if k == "join":
         return [x for x in sp if low(x) == low(s["key"])] + [x for x in sp if low(x) != low(s["key"])] + [x for x in s["right"] if low(x) != low(s["key"])]
     return sp
@@ -239,6 +242,23 @@ def gen_step(rng: random.Random, kind: str, sp: t.List[str], allnames: t.Set[str
         if not aggs:
             return None
         return {"k": "groupAgg", "keys": keys, "aggs": aggs}
+    if kind in ("unionByName", "unionByNameMissing"):
+        allow = kind == "unionByNameMissing"
+        if allow and any(key(low(c)) != low(c) for c in sp):
+            return None  # the re-select by normalised strings treats names that need quoting differently again
+        if allow:
+            shared = rng.sample(sp, rng.randint(1, len(sp)))
+            right, seen = [variant(rng, c) for c in shared], set(used)
+            for _ in range(rng.randint(0, 2)):
+                nm = gen_name(rng, seen, rng.choice([PLAIN, RESERVED, UNI]))
+                if key(low(nm)) != low(nm):
+                    continue
+                right.append(nm)
+                seen.add(low(nm))
+        else:
+            right = [variant(rng, c) for c in sp]
+        rng.shuffle(right)
+        return {"k": "unionByName", "right": right, "allow": allow}
     if kind == "join":
         kcol = rng.choice(sp)
         right = [variant(rng, kcol)]
@@ -261,10 +281,15 @@ def gen_case(rng: random.Random, kinds: t.Sequence[str], quotey: bool = False) -
     sp = list(names)
     allnames = set(used)
     steps = []
-    if "toDF" in kinds[:-1]:
-        # toDF leaves raw aliases (and their own quoting flags) in the select list; what later steps make of them
-        # depends on the CTE-wrap rule (C01's): toDF is generated as the last step only
-        kinds = [k for k in kinds if k != "toDF"] + ["toDF"]
+    kinds = list(kinds)
+    for last_only in ("toDF", "unionByNameMissing"):
+        if last_only in kinds[:-1]:
+            # toDF (and the re-select of unionByName(allowMissingColumns=True)) leave aliases with their own quoting
+            # flags in the select list; what later steps make of them depends on the CTE-wrap rule (C01's):
+            # generated as the last step only
+            kinds = [k for k in kinds if k != last_only] + [last_only]
+    if "toDF" in kinds and "unionByNameMissing" in kinds:
+        kinds = [k for k in kinds if k != "toDF"]
     for i, k in enumerate(kinds):
         s = gen_step(rng, k, sp, allnames, quotey and i == len(kinds) - 1, had_join="join" in kinds[:i])
         if s is None:
@@ -322,6 +347,9 @@ def apply_step(df: t.Any, s: dict) -> t.Any:
         return df.toDF(*s["ns"])
     if k == "groupAgg":
         return df.groupBy(*s["keys"]).agg(*[F.max(F.col(a["ref"])).alias(a["alias"]) for a in s["aggs"]])
+    if k == "unionByName":
+        other = sess.createDataFrame([tuple(2 for _ in s["right"])], list(s["right"]))
+        return df.unionByName(other, allowMissingColumns=s["allow"])
     if k == "join":
         other = sess.createDataFrame([tuple(1 for _ in s["right"])], list(s["right"]))
         return df.join(other, s["key"], "left")
@@ -376,6 +404,8 @@ def to_lean_step(s: dict) -> t.Any:
         return {"toDF": {"ns": s["ns"]}}
     if k == "groupAgg":
         return {"groupAgg": {"keys": s["keys"], "aliases": [a["alias"] for a in s["aggs"]]}}
+    if k == "unionByName":
+        return {"unionByName": {"right": s["right"], "allowMissing": s["allow"]}}
     if k == "join":
         return {"joinUsing": {"k": s["key"], "right": s["right"]}}
     raise ValueError(k)
@@ -462,6 +492,7 @@ def judge(c: dict, impl: dict, L: dict) -> dict:
     scope = list(L["scope"])
     model_notes: t.List[str] = []
     spec_notes: t.List[str] = []
+    structural: t.List[str] = []
     ob_err = any(not x["ok"] for x in L["orderBy"])
     if any(not x["h"] for x in L["orderBy"]):
         scope.append("H_orderByReserved")
@@ -499,6 +530,10 @@ def judge(c: dict, impl: dict, L: dict) -> dict:
         for v in VIEWS:
             if v == "fields" and impl.get(v) is None:
                 continue  # no row came back: no Row to look at
+            if impl.get(v) is not None and [_low_or_self(x) for x in impl[v]] != [_low_or_self(x) for x in L["spec"]]:
+                # not a matter of spelling: a reference did not find its column / a column is missing or doubled.
+                # No spelling hypothesis explains that.
+                structural.append(f"{v} = {impl[v]}: not PySpark's columns {L['spec']} even ignoring letter case and quoting")
             if impl.get(v) != L[v]:
                 model_notes.append(f"{v}: implementation {impl.get(v)} vs model {L[v]}")
             if impl.get(v) != L["spec"]:
@@ -511,7 +546,14 @@ def judge(c: dict, impl: dict, L: dict) -> dict:
                     model_notes.append(f"result column {nm!r} is not a quoted-identifier token of the executed statement (Lean lex)")
             if L["unterminated"]:
                 model_notes.append("Lean lex reports an unterminated token in a statement DuckDB executed")
-    return {"scope": sorted(set(scope)), "model_notes": model_notes, "spec_notes": spec_notes}
+    return {"scope": sorted(set(scope)), "model_notes": model_notes, "spec_notes": spec_notes + structural, "structural": structural}
+
+
+def _low_or_self(x: str) -> str:
+    try:
+        return low(x)
+    except Exception:  # noqa
+        return x.lower()
 
 
 def evaluate(cases: t.List[dict]) -> t.List[dict]:
@@ -576,6 +618,8 @@ def show_step(s: dict) -> str:
         return "toDF(" + ", ".join(map(repr, s["ns"])) + ")"
     if k == "groupAgg":
         return "groupBy(" + ", ".join(map(repr, s["keys"])) + ").agg(" + ", ".join(f"max(col({a['ref']!r})).alias({a['alias']!r})" for a in s["aggs"]) + ")"
+    if k == "unionByName":
+        return f"unionByName(createDataFrame([...], {s['right']!r}), allowMissingColumns={s['allow']})"
     if k == "join":
         return f"join(createDataFrame([...], {s['right']!r}), {s['key']!r}, 'left')"
     return str(s)
@@ -604,6 +648,10 @@ def valid(c: dict) -> bool:
                 return False
             if s["k"] == "toDF" and len(s["ns"]) != len(sp):
                 return False
+            if s["k"] == "unionByName":
+                rl = [low(x) for x in s["right"]]
+                if len(set(rl)) != len(rl) or (not s["allow"] and set(rl) != lows):
+                    return False
             if s["k"] == "withColumnRenamed" and low(s["b"]) in lows and low(s["b"]) != low(s["a"]):
                 return False
             if s["k"] == "drop" and len(sp) < 2:
@@ -706,15 +754,43 @@ def adjacent_observations() -> t.List[dict]:
     return obs
 
 
+def spec_only_stream(ctx: Ctx) -> None:
+    cases = cases_for(ctx)
+    bad = []
+    for c in cases:
+        impl = run_impl(c)
+        if "err" in impl:
+            continue  # whether an error is excused by a named hypothesis cannot be decided without the model
+        sp = list(c["create"])
+        for st in c["steps"]:
+            sp = spec_step(sp, st)
+        want = [_low_or_self(x) for x in sp]
+        notes = [f"{v} = {impl[v]}: not PySpark's columns {sp} even ignoring letter case and quoting" for v in VIEWS if impl.get(v) is not None and [_low_or_self(x) for x in impl[v]] != want]
+        if notes:
+            bad.append((c, impl, sp, notes))
+    bad.sort(key=lambda x: len(json.dumps(x[0])))
+    for c, impl, sp, notes in bad[:3]:
+        vlib.report_violation(
+            ctx,
+            {"kind": "a reference does not find its column / the views do not show PySpark's columns (specification side only: the regenerated model is unavailable)",
+             "program": show_case(c), "case": c, "implementation": public_impl(impl), "specification": sp, "differs_from_specification": notes[:4], "broken": ctx.broken},
+        )
+    if not bad:
+        vlib.report_violation(ctx, {"kind": "the regenerated model is unavailable: a construct the proofs hinge on left the translated shape", "broken": ctx.broken, "searched": {"cases": len(cases)}}, no_input=True)
+    ctx.cov.update({"evaluations": len(cases), "distinct_nontrivial": len({vlib.digest({k: v for k, v in c.items() if k != "origin"}) for c in cases}),
+                    "rule": "specification-side stream only (Gen.Names could not be regenerated): the four views vs PySpark's columns up to letter case and quoting",
+                    "samples": [show_case(c) for c in cases[:3]], "traces_validated_against_impl": 0, "spec_only_failures": len(bad)})
+
+
 def run(ctx: Ctx) -> None:
     idx = vlib.props_index()[ID]
     vlib.prove(ctx, MODULES, GEN, idx["theorems"], SOURCES)
     known = known_entries()
     if any("untranslatable" in b or "bad import" in b for b in ctx.broken):
-        # the source left the translator's sub-language: there is no current model to run the stream against
-        # (the compiled driver would be the one of an older tree)
-        vlib.report_violation(ctx, {"kind": "the regenerated model is unavailable: a construct the proofs hinge on left the translated shape", "broken": ctx.broken}, no_input=True)
-        ctx.cov.update({"evaluations": 0, "distinct_nontrivial": 0, "rule": "no stream: Gen.Names could not be regenerated", "samples": [], "traces_validated_against_impl": 0})
+        # the source left the translator's sub-language: there is no current model (the compiled driver would be
+        # the one of an older tree).  Fall back to the specification side alone: the four views against PySpark's
+        # columns IGNORING letter case and quoting — the part of the property no spelling hypothesis can excuse.
+        spec_only_stream(ctx)
         return
 
     cases = cases_for(ctx)
@@ -728,7 +804,7 @@ def run(ctx: Ctx) -> None:
     new_viol = []
     for r in spec_mismatch:
         sc = r["scope"]
-        if sc and all(h in known for h in sc) and not r["model_notes"]:
+        if sc and all(h in known for h in sc) and not r["model_notes"] and not r["structural"]:
             for h in sc:
                 vlib.report_known(ctx, known[h], known[h]["summary"])
         else:
@@ -750,7 +826,7 @@ def run(ctx: Ctx) -> None:
     reported = 0
     for r in new_viol[:3]:
         def failing(rr: dict) -> bool:
-            return bool(rr["spec_notes"]) and not (rr["scope"] and all(h in known for h in rr["scope"]) and not rr["model_notes"])
+            return bool(rr["spec_notes"]) and not (rr["scope"] and all(h in known for h in rr["scope"]) and not rr["model_notes"] and not rr["structural"])
 
         c = shrink(r["case"], failing)
         rr = evaluate([c])[0]
@@ -840,6 +916,17 @@ def replay(ctx: Ctx, rp: dict) -> None:
     c = rp.get("case")
     if not c:
         print("replay names a broken obligation, not an input:", rp.get("broken"))
+        return
+    if "specification side only" in rp.get("kind", ""):
+        impl = run_impl(c)
+        sp = list(c["create"])
+        for st in c["steps"]:
+            sp = spec_step(sp, st)
+        want = [_low_or_self(x) for x in sp]
+        notes = [f"{v} = {impl.get(v)}" for v in VIEWS if impl.get(v) is not None and [_low_or_self(x) for x in impl[v]] != want] or ([impl["err"]] if "err" in impl else [])
+        print(json.dumps({"program": show_case(c), "implementation": public_impl(impl), "specification": sp, "differs": notes}, indent=1, default=str))
+        if notes:
+            vlib.report_violation(ctx, dict(rp, implementation=public_impl(impl)))
         return
     r = evaluate([c])[0]
     print(json.dumps({"program": show_case(c), "implementation": public_impl(r["impl"]), "specification": r["lean"]["spec"], "model": {v: r["lean"][v] for v in VIEWS}, "differs_from_specification": r["spec_notes"], "scope": r["scope"]}, indent=1, default=str))
